@@ -24,6 +24,9 @@ type c03env struct {
 	trace    []string
 	valName  func(error) string
 	onExcAll func(p *probe, pos int)
+	// C03 (nested exceptions): run once by the first exception handler that is visited at position nestAt
+	nestAt   int
+	nestFire func()
 }
 
 type probe struct {
@@ -50,6 +53,11 @@ func (p *probe) on(kind int, ctx netty.HandlerContext, arg interface{}, forward 
 			pos = -2 // context not bound to this handler
 		}
 		env.log = append(env.log, fmt.Sprintf("%d:%d", pos, p.id))
+		if kind == 3 && env.nestFire != nil && pos == env.nestAt {
+			f := env.nestFire
+			env.nestFire = nil
+			f()
+		}
 	}
 	if env.traceAll && kind != 4 {
 		pos := -1
@@ -316,6 +324,29 @@ func c03Events(env *c03env, pl netty.Pipeline, ch netty.Channel, tr *mock.Transp
 		}
 		c := pl.ContextAt(p)
 		if observe(3, 0, func() { c.Write(42) }) {
+			return
+		}
+	}
+	if rng.Intn(2) == 0 {
+		// an exception handler that, while handling this exception, causes another one (its reply fails, say): the
+		// second one travels the whole chain from the head as well
+		env.nestAt = 1 + rng.Intn(size-1)
+		env.nestFire = func() { pl.FireChannelException(errors.New("nv-second-exception")) }
+		env.recKind = 3
+		env.log = nil
+		c0 := tr.Closed()
+		res := guard(func() { pl.FireChannelException(ex) })
+		env.recKind = -1
+		env.nestFire = nil
+		final := "none"
+		if tr.Closed() > c0 {
+			final = "close"
+		}
+		if res == "panic" {
+			final = "panic"
+		}
+		emit("C03 nest %d %s %s", env.nestAt, final, strings.Join(env.log, " "))
+		if final == "close" {
 			return
 		}
 	}
